@@ -2,21 +2,35 @@
   C17 — Diagnostics point at the offending command.   Property theorems.
 
   Layers (see checks/c17.py LEVEL_TEXT):
-  * reader (`parse_mml_track`): the reference stamped on a command is the position of its first
-    non-blank character (`C17_event_ref_is_command_start`), the "unknown MML command" error is
-    raised exactly there (`C17_unknown_command_column`); the general column bound for all
-    `parse_error` sites is `C17_full_statement_parse_error_column` (NOT proved; carried by the
-    fault-injection judge and by model<->code correspondence on every message).
-  * player / validators / converter (`Model/Refs` wrappers): dropping the references gives the
-    merged models back (`C17_stepR_erase`); an error carries the reference of the command just
-    fetched (`C17_error_ref_is_fetched_command`); a missing call target is reported at the JUMP
-    itself (`C17_missing_call_is_faulty_command`); at every reachable state `reference` is the
-    position of a command on the current track or on a track recorded in a stack frame, i.e. a
-    caller (`C17_reference_on_chain`, `C17_structural_error_ref`).
+  * reader (`parse_mml_track` … `read_line`): the reference stamped on a command is the position
+    of its first non-blank character (`C17_event_ref_is_command_start`), the "unknown MML command"
+    error is raised exactly there (`C17_unknown_command_column`); EVERY `parse_error` of the loop is
+    on the line being read, at or after the first character of the command of the failing round and
+    at most one past the column `get()` reaches behind the end of the line
+    (`C17_parse_error_column`, `C17_parse_error_column_bounds` = the former full statement), every
+    `parse_error` of a whole line / file likewise (`C17_line_error_position`,
+    `C17_file_error_position`); the two most frequent sites have their exact column
+    (`C17_missing_parameter_column`, `C17_illegal_duration_column`).
+  * player / validators (`Model/Refs` wrappers): dropping the references gives the merged models
+    back (`C17_stepR_erase`); an error carries the reference of the command just fetched
+    (`C17_error_ref_is_fetched_command`); a missing call target is reported at the JUMP itself
+    (`C17_missing_call_is_faulty_command`); at every reachable state `reference` is the position of
+    a command on the current track or on a track recorded in a stack frame, i.e. a caller
+    (`C17_reference_on_chain`, `C17_structural_error_ref`).
+  * converter (`runWriterR`, `parseTracksR`): an `InputError` carries the reference of the command
+    fetched by the failing writer step, or comes unchanged out of the writer of a drum routine
+    (`C17_converter_error_ref`); so it is no position or that of a command of a track of the song
+    (`C17_converter_error_on_track`).
+  * `what()`: `file:line+1:col+1: msg` cut at 199 characters; the prefix is whole whenever it fits
+    (`C17_what_layout`) and the judge's reader gives the reference back (`C17_what_reads_back`);
+    the whole pipeline's parse stage ties the two (`C17_pipeline_parse_error`).
 -/
 import Ctrmml.Proofs.Refs
 import Ctrmml.Proofs.Reader
 import Ctrmml.Proofs.Reader2
+import Ctrmml.Proofs.DiagSites
+import Ctrmml.Proofs.DiagConv
+import Ctrmml.Proofs.DiagWhat
 import Ctrmml.Spec.Diag
 namespace Ctrmml.Properties.C17
 open Ctrmml Ctrmml.Lexer Ctrmml.TrackBuilder Ctrmml.Refs Ctrmml.Player Ctrmml.Tables
@@ -144,14 +158,217 @@ example : ∃ s : Mml.MmlState, s.inp.lb.column < s.inp.lb.buf.length ∧
   ⟨{ inp := { lb := { buf := [65, 32, 63], column := 2 }, line := 4 } }, by decide, by rfl, by rfl, by rfl⟩
 
 /-- the full reader statement of the design (every `parse_error` site of `parse_mml_track`): the
-error is on the line being read, at or after the first character of the command being read and at
-most one column past the position `get()` reaches after the end of the line (0-based `len + 1`,
-printed as `len + 2`).  NOT proved here: it needs a Hoare-style pass over all 40 command
-functions of Model/Mml; it is checked on the real messages by the fault-injection judge
-(`Spec/Diag.parseOk`) at every command position and by model<->code correspondence. -/
+error is on the line being read, at or after the column where the loop started and at most one
+column past the position `get()` reaches after the end of the line (0-based `len + 1`, printed as
+`len + 2`).  Proved below (`C17_parse_error_column_bounds`) by a column logic over all command
+functions of Model/Mml (Proofs/DiagHoare, DiagCmd, DiagLine). -/
 def C17_full_statement_parse_error_column : Prop :=
   ∀ (fuel : Nat) (s s' : Mml.MmlState) (msg : String) (r : Ref),
     MmlFix.parseMmlTrackF fuel s = .err (.input msg r) s' →
     r.line = s.inp.line ∧ s.inp.lb.column ≤ r.column ∧ r.column ≤ s.inp.lb.buf.length + 1
+
+theorem C17_parse_error_column_bounds : C17_full_statement_parse_error_column :=
+  fun fuel s s' msg r h => DiagCol.track_error_bounds fuel s s' msg r h
+
+/-- "the line of the offending command, with a column at or after that command's first character
+and at most two past the end of that line" for EVERY `parse_error` raised inside
+`parse_mml_track` (all commands of `mml_basic` / `mml_control` / `mml_envelope`, `%`, the
+conditional blocks): the failing round of the loop started at a loop head `s₀` (`CmdHead`: reached
+from `s` by whole rounds that returned normally); `k` = the column of the first non-blank character
+at or behind `s₀`'s column is the first character of the command of that round — the position
+`set_reference` stamps (`C17_event_ref_is_command_start`) — it lies inside the line, and the error is
+on the line being read at a 0-based column in `[k, len + 1]` (printed `[k + 1, len + 2]`). -/
+theorem C17_parse_error_column (fuel : Nat) (s s' : Mml.MmlState) (msg : String) (r : Ref)
+    (hc : s.inp.lb.column ≤ s.inp.lb.buf.length)
+    (h : MmlFix.parseMmlTrackF fuel s = .err (.input msg r) s') :
+    ∃ s₀, DiagCol.CmdHead s s₀ ∧ s₀.inp.line = s.inp.line ∧ s₀.inp.lb.buf.length = s.inp.lb.buf.length ∧
+      s.inp.lb.column ≤ s₀.inp.lb.column ∧
+      s₀.inp.lb.column + LineBuffer.countBlanks (s₀.inp.lb.buf.drop s₀.inp.lb.column) < s.inp.lb.buf.length ∧
+      r.line = s.inp.line ∧
+      s₀.inp.lb.column + LineBuffer.countBlanks (s₀.inp.lb.buf.drop s₀.inp.lb.column) ≤ r.column ∧
+      r.column ≤ s.inp.lb.buf.length + 1 :=
+  DiagCol.track_error_command fuel s s' msg r hc h
+
+/-- `A c  o` on line 3, read from column 1: the failing round is the third one (`o` at column 5);
+"missing parameter" is raised at column 6 = the end of the line -/
+example : ∃ s', MmlFix.parseMmlTrackF 8 { inp := { lb := { buf := [65, 32, 99, 32, 32, 111], column := 1 }, line := 3 } } =
+    .err (.input "missing parameter" { line := 3, column := 6 }) s' := DiagCol.errIs_spec _ _ _ (by decide +kernel)
+
+/-- every `parse_error` raised while a line is read (`read_line`: track list, tag key, every track of
+a multi-track line, conditional blocks left open) is on that line at a 0-based column of at most
+`len + 1`: "at most two past the end of that line" -/
+theorem C17_line_error_position (text : List Nat) (n : Nat) (s s' : Mml.MmlState) (msg : String) (r : Ref)
+    (h : MmlFix.readLine text n s = .err (.input msg r) s') : r.line = n ∧ r.column ≤ text.length + 1 :=
+  DiagCol.readLine_error text n s s' msg r h
+
+/-- … and of a whole file: the error names one of its lines and a column inside or just behind it -/
+theorem C17_file_error_position (ls : List (List Nat)) (n : Nat) (s s' : Mml.MmlState) (msg : String) (r : Ref)
+    (h : MmlFix.readLines n ls s = .err (.input msg r) s') :
+    ∃ i, ∃ hi : i < ls.length, r.line = n + i ∧ r.column ≤ (ls[i]'hi).length + 1 :=
+  DiagCol.readLines_error ls n s s' msg r h
+
+/-- `AB {c/_{C}`: track B leaves its conditional block open; the error is two past the end (0-based 11) -/
+example : ∃ s', MmlFix.readLines 0 [[65, 66, 32, 123, 99, 47, 95, 123, 67, 125]] Mml.MmlState.init =
+    .err (.input "unterminated conditional block" { line := 0, column := 11 }) s' := DiagCol.errIs_spec _ _ _ (by decide +kernel)
+
+/-- `expect_parameter()` (the parameter of `o Q q C s * @ K v V p E M P G D t T % _ k \=`): its only
+error is "missing parameter", raised exactly where `get_num` gave up — at the first non-blank
+character behind the command letter, one further when that character is `$` or `x` (`numSkip`) -/
+theorem C17_missing_parameter_column (s s' : Mml.MmlState) (hs : Mml.Sane s) (e : Err)
+    (h : Mml.expectParameter s = .err e s') :
+    e = .input "missing parameter" { line := s.inp.line, column := s.inp.lb.column + DiagCol.numSkip (Mml.suffix s) } ∧
+    (numSpan (Mml.suffix s)).1 = none :=
+  DiagCol.expectParameter_error s s' hs e h
+
+example : DiagCol.numSkip [32, 32, 36, 63] = 3 ∧ (numSpan [32, 32, 36, 63]).1 = none := by decide +kernel
+
+/-- `read_duration()` (notes, `r ^ l R ~ \`): its only error is "illegal duration", raised directly
+behind the number it read (behind the `:` and the number for a frame count) -/
+theorem C17_illegal_duration_column (s s' : Mml.MmlState) (hs : Mml.Sane s) (e : Err)
+    (h : Mml.readDuration s = .err e s') :
+    e = .input "illegal duration"
+      { line := s.inp.line,
+        column := s.inp.lb.column + (if (Mml.suffix s).head? = some 58 then 1 else 0) +
+          (numSpan ((Mml.suffix s).drop (if (Mml.suffix s).head? = some 58 then 1 else 0))).2 } :=
+  DiagCol.readDuration_error s s' hs e h
+
+/-- `c:-20 d` read behind the `c`: the error is behind `:-20` -/
+example : ∃ s', Mml.readDuration { inp := { lb := { buf := [99, 58, 45, 50, 48, 32, 100], column := 1 }, line := 0 } } =
+    .err (.input "illegal duration" { line := 0, column := 5 }) s' := DiagCol.errIs_spec _ _ _ (by decide +kernel)
+
+/-! ### converter -/
+
+/-- every `InputError` that comes out of the converter's loop over the channel tracks was raised
+while one of those tracks `evs` was converted, and (`ErrSite`) either by a step of the writer over
+that track — then it carries the reference of the command that step fetched (missing instrument,
+envelope, platform command, note out of range, wrong instrument type: the faulty command itself;
+everything thrown inside the hook of a `JUMP`, re-thrown as "jump destination doesn't exist": the
+calling `JUMP`; stack errors: the command that overflowed / underflowed) — or it comes unchanged out
+of the writer of a drum routine that a drum-mode `NOTE` converts (recursively an `ErrSite` of that
+routine's track) -/
+theorem C17_converter_error_ref (rs : RSong) (d : Mds.DataInfo) (ids : List Nat) (c : Mds.Conv)
+    (tl : List (Nat × List Mds.MEv)) (x : RErr) (h : parseTracksR rs d ids c tl = .error x) :
+    x.err = .fuel ∨ ∃ id evs, id ∈ ids ∧ rs.track? id = some evs ∧ ErrSite rs evs x :=
+  parseTracksR_error rs d ids c tl x h
+
+/-- the same for one writer run from any state reached from the start of its track -/
+theorem C17_writer_error_ref (rs : RSong) (d : Mds.DataInfo) (root : List BEvent) (fuel steps : Nat)
+    (c : Mds.Conv) (w : Mds.WState) (s : RState) (x : RErr) (hs : ReachR rs root false initR s)
+    (h : runWriterR rs d root fuel steps c w s = .error x) : x.err = .fuel ∨ ErrSite rs root x :=
+  (writerRef rs d fuel).1 steps root c w s x hs h
+
+/-- … hence the reference of a converter error is no position at all, or the position of a command
+of the converted track or of a track of the song (a subroutine it calls, a drum routine) -/
+theorem C17_converter_error_on_track (rs : RSong) (root : List BEvent) (x : RErr) (h : ErrSite rs root x) :
+    x.ref = none ∨ ∃ evs, (evs = root ∨ ∃ id, rs.track? id = some evs) ∧ ∃ e ∈ evs, e.ref = x.ref :=
+  errSite_onSomeTrack h
+
+/-- `A @77` (no instrument 77): the error carries the reference of the `@77` command -/
+example : (match parseTracksR ⟨[(0, [{ type := ev_INS, param := 77, on := 0, off := 0, ref := some ⟨0, 2⟩ }])]⟩
+        { insType := [], envelopeMap := [] } [0] {} [] with
+     | .error x => x.ref == some ⟨0, 2⟩ && decide (x.err = .insMissing)
+     | .ok _ => false) = true := by
+  simp only [parseTracksR, RSong.track?, List.lookup, beq_self_eq_true]
+  rw [runWriterR]
+  simp only [Mds.hook]
+  decide +kernel
+
+example : ErrSite ⟨[]⟩ [{ type := ev_INS, param := 77, on := 0, off := 0, ref := some ⟨0, 2⟩ }]
+    { err := .insMissing, ref := some ⟨0, 2⟩, msg := "" } := .own _ initR _ (.refl _) rfl
+
+/-- which command a converter error is about: the event a writer step hands to `event_hook` is the
+event that step fetched (so the error's reference, which is the fetched event's, is that of the
+event the hook was converting) — except on the final pass of a loop, where a fetched `LOOP_BREAK`
+is replaced by the loop's `LOOP_END` event while the reference stays the `LOOP_BREAK`'s -/
+theorem C17_hook_item_is_fetched (song : Song) (root : List Event) (lh : Bool) (s st' : Player.PState)
+    (it : Player.TraceItem) (h : Player.stepTrace song root lh s = .ok (st', some (some it))) :
+    it.ev = Player.fetch (codeOf song root s.core.track) s.core.position ∨
+    (Player.fetch (codeOf song root s.core.track) s.core.position).kind = .loopBreak :=
+  stepTrace_item_fetched song root lh s st' it h
+
+example : ∃ st' it, Player.stepTrace { tracks := [] } [{ type := ev_INS, param := 77, on := 0, off := 0 }] false Player.initState =
+    .ok (st', some (some it)) ∧ it.ev = { type := ev_INS, param := 77, on := 0, off := 0 } := ⟨_, _, rfl, rfl⟩
+
+/-- … and `event_hook` itself (nesting fuel aside) only fails for six kinds of events; for an
+instrument command the error is "wrong type" or "doesn't exist" of that instrument, for a `%`
+command "not defined" of that command, for a pitch envelope "doesn't exist", for a note outside
+drum mode "out of range"; the other three (`JUMP`, drum-mode `NOTE`, `PAN_ENVELOPE`) convert
+another track and pass its failure on.  Together with `C17_converter_error_ref`: such an error
+carries the position of the instrument / `%` / envelope / note command it is about -/
+theorem C17_hook_error_event (song : Song) (d : Mds.DataInfo) (fuel : Nat) (c : Mds.Conv) (w : Mds.WState)
+    (it : Player.TraceItem) (x : Mds.WErr) (h : Mds.hook song d fuel c w it = .error x) :
+    x = .fuel ∨ HookErrAbout it w.drumEnabled x :=
+  hook_error_event song d fuel c w it x h
+
+example : (match Mds.hook { tracks := [] } { insType := [], envelopeMap := [] } 1 {} { drumEnabled := false, inDrum := false, trackId := 0 }
+    { ev := { type := ev_INS, param := 77, on := 0, off := 0 }, on := 0, off := 0, insideLoop := false, insideJump := false } with
+    | .error x => decide (x = .insMissing)
+    | .ok _ => false) = true := by
+  simp only [Mds.hook]
+  decide +kernel
+
+/-! ### `what()` -/
+
+/-- the text is `file:line+1:col+1: msg` cut at 199 characters; with a null reference the first 199
+characters of the message; the prefix `file:line:col: ` is whole whenever it fits, in particular
+for every file name of at most 175 characters and line / column numbers of at most ten digits -/
+theorem C17_what_layout (file : String) (r : Ref) (msg : String) :
+    (whatOf file (some r) msg).toList = (whatPrefix file r ++ msg.toList).take (diagWhatBufSize - 1) ∧
+    (whatOf file none msg).toList = msg.toList.take diagWhatNullCopy ∧
+    ((whatPrefix file r).length ≤ diagWhatBufSize - 1 →
+      (whatOf file (some r) msg).toList =
+        whatPrefix file r ++ msg.toList.take (diagWhatBufSize - 1 - (whatPrefix file r).length)) ∧
+    (file.length ≤ 175 → r.line + diagWhatLineBase < 10 ^ 10 → r.column + diagWhatColumnBase < 10 ^ 10 →
+      (whatPrefix file r).length ≤ diagWhatBufSize - 1) := by
+  refine ⟨whatOf_toList file r msg, whatOf_null file msg, whatOf_prefix file r msg, ?_⟩
+  intro hf hl hc
+  rw [whatPrefix_length]
+  have h1 := (Nat.length_repr_le_iff (n := r.line + diagWhatLineBase) (k := 10) (by decide)).mpr hl
+  have h2 := (Nat.length_repr_le_iff (n := r.column + diagWhatColumnBase) (k := 10) (by decide)).mpr hc
+  rw [← String.length_toList, Nat.toList_repr] at h1 h2
+  have : diagWhatBufSize - 1 = 199 := by decide
+  omega
+
+example : whatOf "t.mml" (some ⟨2, 4⟩) "unknown MML command" = "t.mml:3:5: unknown MML command" := by decide +kernel
+
+/-- the judge's reader (`Spec/Diag.parseWhat`) applied to the text gives back the file name, the
+reference's line and column plus the bases of the format (1, 1: regenerated from the `snprintf`
+call) and the message, for every file name without a colon whenever the prefix fits -/
+theorem C17_what_reads_back (file : String) (r : Ref) (msg : String) (hcolon : ':' ∉ file.toList)
+    (hlen : (whatPrefix file r).length ≤ diagWhatBufSize - 1) :
+    Diag.parseWhat (whatOf file (some r) msg) =
+      some { file := file, line := r.line + diagWhatLineBase, col := r.column + diagWhatColumnBase,
+             msg := String.ofList (msg.toList.take (diagWhatBufSize - 1 - (whatPrefix file r).length)) } :=
+  parseWhat_whatOf file r msg hcolon hlen
+
+example : ':' ∉ "my_song.mml".toList ∧ (whatPrefix "my_song.mml" ⟨11, 40⟩).length ≤ diagWhatBufSize - 1 := by decide +kernel
+
+/-- the parse stage of the modelled pipeline (`mmlc`: `open_file`): a rejected input is reported
+with `what()` rendered from a reference that names one of the lines of the file and a column of at
+most `len + 1` on it -/
+theorem C17_pipeline_parse_error (file : String) (lines : List (List Nat)) (h : (runPipeline file lines).stage = .parse)
+    (r : Ref) (hr : (runPipeline file lines).ref = some r) :
+    (runPipeline file lines).what = some (whatOf file (some r) (runPipeline file lines).msg) ∧
+    ∃ hi : r.line < lines.length, r.column ≤ (lines[r.line]'hi).length + 1 := by
+  unfold runPipeline at h hr ⊢
+  cases hl : MmlFix.readLines 0 lines Mml.MmlState.init with
+  | err e s' =>
+    rw [hl] at h hr
+    simp only []
+    cases e with
+    | input msg r' =>
+      simp only [Option.some.injEq] at hr
+      subst hr
+      obtain ⟨i, hi, h1, h2⟩ := DiagCol.readLines_error lines 0 _ _ _ _ hl
+      have : r'.line = i := by omega
+      subst this
+      exact ⟨rfl, hi, h2⟩
+    | «foreign» k => simp at hr
+  | ok a st =>
+    exfalso
+    rw [hl] at h
+    simp only [] at h
+    repeat' split at h
+    all_goals cases h
 
 end Ctrmml.Properties.C17
